@@ -27,6 +27,7 @@ import (
 	"strconv"
 	"strings"
 	"sync"
+	"sync/atomic"
 	"time"
 
 	martian "github.com/google/martian/v3"
@@ -225,7 +226,19 @@ func (e *exch) responseBytes() []byte {
 
 const sentinel = "/__verif_sentinel"
 
-var idle = 10 * time.Second
+var idle = 8 * time.Second
+
+// stuck counts cases that ended in a client-side timeout. A healthy proxy
+// never produces one; once a proxy has produced many, waiting out the full
+// grace period (twice) for every further case only burns the time budget.
+var stuck int32
+
+func idleNow() time.Duration {
+	if atomic.LoadInt32(&stuck) > 16 {
+		return idle / 8
+	}
+	return idle
+}
 
 func runCase(in []string) (out []string) {
 	defer func() {
@@ -322,7 +335,7 @@ func runCase(in []string) (out []string) {
 			conn.Write(all.Bytes())
 		}()
 		for _, e := range exs {
-			conn.SetReadDeadline(time.Now().Add(idle))
+			conn.SetReadDeadline(time.Now().Add(idleNow()))
 			if !record(p1x.ReadResponse(br, e.Method, false)) {
 				break
 			}
@@ -341,7 +354,7 @@ func runCase(in []string) (out []string) {
 				// the proxy closed the connection before (or while) we wrote:
 				// whatever it sent is still readable.
 			}
-			conn.SetReadDeadline(time.Now().Add(idle))
+			conn.SetReadDeadline(time.Now().Add(idleNow()))
 			if !record(p1x.ReadResponse(br, e.Method, false)) {
 				break
 			}
@@ -349,7 +362,7 @@ func runCase(in []string) (out []string) {
 	}
 	if end == "" {
 		// every response arrived and the connection was not seen closing: is it usable?
-		conn.SetDeadline(time.Now().Add(idle))
+		conn.SetDeadline(time.Now().Add(idleNow()))
 		fmt.Fprintf(conn, "GET %s HTTP/1.1\r\nHost: %s\r\nConnection: close\r\n\r\n", sentinel, origin.Addr)
 		m := p1x.ReadResponse(br, "GET", true)
 		switch {
@@ -400,6 +413,9 @@ func runRobust(in []string) []string {
 	out := runCase(in)
 	for _, t := range out {
 		if strings.Contains(t, "timeout") || strings.HasPrefix(t, "ENV:") {
+			if atomic.AddInt32(&stuck, 1) > 16 {
+				return out
+			}
 			return runCase(in)
 		}
 	}
